@@ -194,9 +194,11 @@ def tasks(tier, seed):
     def add(name, fn, args, budget):
         out.append({"name": name, "fn": fn, "args": args, "budget_s": budget, "max_paths": 5000})
     quick = tier == "quick"
-    iso = ["iso_date", "iso_slash", "iso_hm", "iso_hms", "iso_T_hms", "iso_f3"] if quick else list(FORMS)
+    iso = ["iso_date", "iso_slash", "iso_hm", "iso_hms", "iso_T_hms", "iso_f3", "iso_f6"] if quick else list(FORMS)
     for f in iso:
         add("en:" + f, "h_form", {"form": f, "languages": ["en"]}, 240 if quick else 1800)
+        if "_f" in f:
+            out[-1]["solver_timeout_ms"] = 150000     # fraction digits may flow through IEEE arithmetic (bit-blasted)
     add("auto:iso_date", "h_form", {"form": "iso_date", "languages": None}, 240 if quick else 900)
     if not quick:
         add("auto:iso_hms", "h_form", {"form": "iso_hms", "languages": None}, 1800)
